@@ -42,9 +42,9 @@ fn viol(out: &mut Out, key: &str, text: &str, comp: &str, ops: Vec<Op>, observed
 fn scan_graph<D: ByteDev>(out: &mut Out) {
     chunk(&format!("scancode-graph {}", D::component()));
     let sys = BareSys::<D>::new();
-    let g = bfs(&sys, true);
+    let g = bfs(&sys, true, 20_000);
     let mut panics = 0;
-    for s in 0..g.states.len() {
+    for s in 0..g.expanded {
         for (ai, o) in g.outs[s].iter().enumerate() {
             if let Err(p) = o {
                 panics += 1;
@@ -65,9 +65,9 @@ fn scan_graph<D: ByteDev>(out: &mut Out) {
 fn frame_graph(out: &mut Out) {
     chunk("ps2-graph");
     let sys = FrameSys::new();
-    let g = bfs(&sys, true);
+    let g = bfs(&sys, true, 100_000);
     let mut panics = 0;
-    for s in 0..g.states.len() {
+    for s in 0..g.expanded {
         for (ai, o) in g.outs[s].iter().enumerate() {
             if o == "PANIC" {
                 panics += 1;
@@ -131,7 +131,7 @@ fn kb_words<S: SetLike>(out: &mut Out) {
 fn ev_graph(out: &mut Out) {
     chunk("eventdecoder-graph echo");
     let sys = EvSys::<EventDecoder<Echo>> { alphabet: ev_alphabet(true), init_mode: HandleControl::MapLettersToUnicode, check_mods: false, check_ret: false, _d: std::marker::PhantomData };
-    let g = bfs(&sys, false);
+    let g = bfs(&sys, false, 100_000);
     for (si, ai, b) in &g.bads {
         let mut ops: Vec<Op> = g.path_to(*si).iter().map(|a| sys.alphabet[*a].op()).collect();
         ops.push(sys.alphabet[*ai].op());
